@@ -12,6 +12,9 @@ from props import heapspec, segspec
 
 FONT0 = str(lib.REPO / "tests" / "fonts" / "general.ttf")
 SHIPPED = ["Padauk.ttf", "charis_r_gr.ttf", "Scheherazadegr.ttf", "Annapurnarc2.ttf", "AwamiNastaliq-Regular.ttf", "MagyarLinLibertineG.ttf", "general.ttf", "charis.ttf"]
+# texts with runs of two and more combining marks (reverseSlots keeps such runs behind their base), digits, mixed scripts
+MARKS = ["\u0628\u064e\u0651\u0628", "\u0628\u0628\u064e\u0651\u0628", "\u0667\u064e\u064e\u0667", "\u067a\u0327\u0327\u0327\u067a", "\u0644\u0651\u064e\u0670\u0647",
+         "a\u0301\u0302\u0303b", "\u1000\u1031\u102c\u1037\u103a", "\u0915\u094d\u0937\u093f\u0902\u0901", "x\u0323\u0323\u0323\u0323y\u0301", "\u0628\u064e", "\u064e\u0651"]
 WORDS = ["hello", "affinity", "office", "Wörld", "naïve", "ကောင်း", "မြန်မာ", "السلام",
          "عليكم", "क्षि", "नमस्ते", "ạ́", "x̂́y", "fi fl ffi", "1/2 3/4", "Ą̊",
          "กำไร", " ", "", "abc def ghi", "گرافیت", "پاکستان", "éèê", "�퟿", "T̥̄o"]
@@ -94,18 +97,27 @@ def end_to_end(ctx, res, pred, nfonts, ntexts, shipped_words):
             meta = {"nglyphs": fontsynth.NG, "pos_assoc": pos_ops(desc), "synth": True}
             for _ in range(ntexts):
                 t = fontsynth.gen_text(r)
-                lines.append("F0=%d,0,f;S0=0,-1,-1,0,32,%d,-1,%s;D0" % (i, r.choice([0, 1, 0, 3, 2]), "".join("%08x" % c for c in t) or "-"))
+                nch = -1 if r.random() < 0.8 else len(t) + r.randrange(1, 9)
+                lines.append("F0=%d,0,f;S0=0,-1,-1,0,32,%d,%d,%s;D0" % (i, r.choice([0, 1, 0, 3, 2]), nch, "".join("%08x" % c for c in t) or "-"))
                 info.append((t, meta))
         nsynth = len(fonts)
         ship = [f for f in SHIPPED if (lib.REPO / "tests" / "fonts" / f).exists()]
         for j, f in enumerate(ship):
             fonts.append(str(lib.REPO / "tests" / "fonts" / f))
             meta = {"nglyphs": None, "pos_assoc": False, "synth": False}
-            for w in WORDS[:shipped_words]:
+            extra = []
+            tdir = lib.REPO / "tests" / "texts"
+            for tf in (["udhr_arb.txt", "awami_tests.txt"] if f.startswith(("Sche", "Awami")) else ["udhr_eng.txt"] if f.startswith(("charis", "Magyar")) else []):
+                if (tdir / tf).exists():
+                    rows = [x.strip() for x in (tdir / tf).read_text(encoding="utf-8", errors="replace").splitlines() if x.strip()]
+                    extra += [x[:40] for x in r.sample(rows, min(len(rows), shipped_words))]
+            for w in WORDS[:shipped_words] + MARKS + extra:
                 w = "".join(c for c in w if not (0xD800 <= ord(c) < 0xE000))
                 for d in (0, 1):
                     hx, cps = text_of(w)
-                    lines.append("F0=%d,%d,f;S0=0,-1,-1,0,32,%d,-1,%s;D0" % (nsynth + j, r.choice([0, 4, 8, 12]), d, hx))
+                    # the caller's character count may over-estimate a NUL-terminated text (C12): the segment must still be consistent
+                    nch = -1 if r.random() < 0.7 else len(cps) + r.randrange(1, 9)
+                    lines.append("F0=%d,%d,f;S0=0,-1,-1,0,32,%d,%d,%s;D0" % (nsynth + j, r.choice([0, 4, 8, 12]), d, nch, hx))
                     info.append((cps, meta))
         impl = lib.run_lines([exe] + fonts, lines, per_chunk=100)
         res.harness.append("h_seg (implementation only)")
